@@ -192,6 +192,42 @@ Theorem C18_subgraph_keep_spec : forall g nodes edges, keep_wf g nodes edges ->
 Proof. exact subgraph_keep_spec. Qed.
 Print Assumptions C18_subgraph_keep_spec.
 
+(* (group hM) SubgraphKeep on EVERY request, well-formed or not (what the code does outside the property's
+   quantifier, which ranges over requests that name a subgraph: keep_wf).  pos nodes x = oldToNew[x], the
+   position of x in the node list, 0 for an id that is not kept (Go's zero value for a missing map key).
+   (1) the model equals the closed form keep_any; (2) the call panics iff a listed node is outside the graph
+   or listed twice, or a requested edge (u, j) does not exist in g, or edges are requested while no node is
+   kept; (3) otherwise NodeMap is the node list and new node i carries, in request order, exactly the
+   requests e with pos (source e) = i, with new target pos (old target); (4) pos x is the position of a kept
+   x and 0 for every other id - so a request whose source is not kept is attached to new node 0 (where
+   EdgeMap reports it as an edge of nodes[0]), and an edge into a node that is not kept becomes an edge into
+   new node 0.  C18_check_ok_sound, op 7, states the accepted observation through keep_any. *)
+From MM Require Import Proofs.SubgraphAny.
+Theorem C18_subgraph_keep_any_request :
+  (forall g nodes edges, subgraph_keep g nodes edges = keep_any g nodes edges) /\
+  (forall g nodes edges, subgraph_keep g nodes edges = None <->
+     ((exists v, In v nodes /\ (g_n g <= v)%N) \/ ~ NoDup nodes) \/
+     (exists e, In e edges /\ edge_exists g e = false) \/
+     (nodes = [] /\ edges <> [])) /\
+  (forall g nodes edges s, subgraph_keep g nodes edges = Some s ->
+     sg_nodemap s = nodes /\ length s = length nodes /\
+     forall i nd, nth_error s i = Some nd ->
+       sg_old nd = nth i nodes 0%N /\
+       sg_oldedges nd = map snd (filter (fun e => (pos nodes (fst e) =? i)%nat) edges) /\
+       sg_out nd = map (fun e => N.of_nat (pos nodes (keep_tgt g e))) (filter (fun e => (pos nodes (fst e) =? i)%nat) edges)) /\
+  (forall nodes x, (In x nodes -> nth_error nodes (pos nodes x) = Some x) /\ (~ In x nodes -> pos nodes x = 0%nat)).
+Proof. exact subgraph_keep_any_request. Qed.
+Print Assumptions C18_subgraph_keep_any_request.
+Example C18_ex_keep_any_request :
+  let g := [[1; 2]; [2]; [0]]%N in
+  (* keep nodes 2 and 1; request edge 0 of node 0 (0 -> 1, source not kept) and edge 0 of node 1 (1 -> 2):
+     the first is attached to new node 0 (= old node 2) as an edge to new node 1, the second to new node 1 *)
+  option_map (map (fun nd => (sg_old nd, sg_out nd, sg_oldedges nd))) (subgraph_keep g [2; 1] [(0, 0); (1, 0)])%N
+    = Some [(2, [1], [0]); (1, [0], [0])]%N /\
+  (* a requested edge that does not exist: panic; edges requested with no node kept: panic *)
+  subgraph_keep g [2; 1]%N [(1, 1)]%N = None /\ subgraph_keep g [] [(0, 0)]%N = None /\ subgraph_keep g [] [] = Some [].
+Proof. vm_compute. auto. Qed.
+
 (* Remove: NodeMap enumerates exactly the surviving nodes in ascending order; EdgeMap of a node
    enumerates exactly its surviving edge indices (target kept, edge not removed), ascending;
    every new edge translated back is the old edge. *)
@@ -276,6 +312,30 @@ Theorem C18_tarjan_correct : forall g edges, g_wf g ->
 Proof. exact tarjan_correct. Qed.
 Print Assumptions C18_tarjan_correct.
 
+(* (group hM) The ORDER inside Out(c) (scc.go:131-149: sort.Ints, then adjacent duplicates removed).
+   (1) In every result of the model, for any successor function and flag, each Out(c) is strictly ascending;
+   (2) sort + adjacent-dedup of any list is strictly ascending with exactly the members of the list;
+   (3) given scc_edges_spec and ascending Out lists, Out(c) EQUALS every strictly ascending list whose members
+   are the other components some edge of c enters: the accepted observation is determined as a list.
+   C18_check_ok_sound, op 3, provides both hypotheses of (3) for an accepted case line. *)
+From MM Require Import Check.C18 Proofs.CheckC18Scc.
+Theorem C18_scc_out_order :
+  (forall out edges g st, tarjan_run out edges g = Some st ->
+     Forall (StronglySorted N.lt) (rev_append (tj_outs st) [])) /\
+  (forall l, StronglySorted N.lt (dedup_adj (Model.Graph.isort l)) /\
+             forall z, In z (dedup_adj (Model.Graph.isort l)) <-> In z l) /\
+  (forall g comps outs, scc_edges_spec g comps outs -> Forall (StronglySorted N.lt) outs ->
+     forall c l, (c < length comps)%nat -> StronglySorted N.lt l ->
+       (forall d, In d l <->
+          (N.to_nat d <> c /\ exists u v, In u (comp_at comps c) /\ In v (comp_at comps (N.to_nat d)) /\ In v (g_out g u))) ->
+       nth c outs [] = l).
+Proof. exact scc_out_order. Qed.
+Print Assumptions C18_scc_out_order.
+Example C18_ex_scc_out_order :
+  (* 0 -> 2, 0 -> 1, 0 -> 2 again, 1 and 2 sinks: Out(component of 0) = [0; 1], ascending, once each *)
+  option_map snd (tarjan [[2; 1; 2]; []; []]%N true) = Some [[]; []; [0; 1]]%N.
+Proof. vm_compute. reflexivity. Qed.
+
 (* ================= comparator soundness: what an accepted case line means ================= *)
 (* (group hI)  The check of this property accepts a case line when check_C18 (Check/C18.v) returns
    code 0 (it never returns the borderline code 1).  The theorems below say what that implies, with no
@@ -318,7 +378,9 @@ Print Assumptions C18_check_ok_sound.
    iff mutually reachable; every edge leads to an equal or smaller component id); hascof = 1 exactly when
    flags <> 0 and then SubnodeComponent has one entry per node, the entry of each node being the index of
    the component containing it; one Out list per component, satisfying scc_edges_spec with SCCEdges (bit
-   1 of flags) and all empty without it. *)
+   1 of flags) and all empty without it; every Out list is strictly ascending (group hM: this is what the
+   list-for-list comparison with the model of Tarjan's algorithm adds), so by C18_scc_out_order Out(c) is
+   THE ascending duplicate-free enumeration of the other components entered. *)
 Theorem C18_check_meaning_traversals : forall rest,
   (marks_case_ok rest <->
      exists h : list (mop * Z), rest = Z.of_nat (length h) :: flat_map enc_mop h /\ h <> [] /\ set_run (fun _ => False) h) /\
@@ -345,7 +407,8 @@ Theorem C18_check_meaning_traversals : forall rest,
        (flags <> 0 -> length cof = length g /\
           forall c v, In v (comp_at compsN c) -> nth (N.to_nat v) cof (-1) = Z.of_nat c) /\
        length outsN = length compsN /\
-       (if Z.testbit flags 1 then scc_edges_spec g compsN outsN else Forall (fun l => l = []) outsN)).
+       (if Z.testbit flags 1 then scc_edges_spec g compsN outsN else Forall (fun l => l = []) outsN) /\
+       Forall (StronglySorted N.lt) outsN).
 Proof. exact case_meaning_traversals. Qed.
 Print Assumptions C18_check_meaning_traversals.
 
@@ -358,7 +421,8 @@ Print Assumptions C18_check_meaning_traversals.
    float64 bit patterns (wadj_decodes).
    ops 7, 8.  In general the observation is the model's value (status 2 and no rows exactly when the model
    panics, else status 0 and the rows NodeMap / Out / EdgeMap are the rows of the model's result: sg_matches,
-   sg_row).  SubgraphKeep on a well-formed request (no negative number; keep_wf) and SubgraphRemove on
+   sg_row); for SubgraphKeep the model's value on EVERY request is given in the closed form keep_any, read by
+   C18_subgraph_keep_any_request.  SubgraphKeep on a well-formed request (no negative number; keep_wf) and SubgraphRemove on
    EVERY request satisfy the specification: Keep returns the requested subgraph (keep_spec_concl = the
    conclusion of C18_subgraph_keep_spec), Remove returns the surviving nodes and edges in ascending order
    (remove_spec_concl = the conclusion of C18_subgraph_remove_spec) or panics exactly when more distinct
@@ -405,7 +469,7 @@ Theorem C18_check_meaning_graphops : forall rest,
      let nodesN := NsZ nodes in
      let edgesN := map (fun e => (Z.to_N (fst e), Z.to_N (snd e))) edges in
      let neg := existsb (fun x => x <? 0) (nodes ++ eflat) in
-     sg_matches (if neg then None else subgraph_keep g nodesN edgesN) status obs /\
+     sg_matches (if neg then None else keep_any g nodesN edgesN) status obs /\
      (neg = false -> keep_wf g nodesN edgesN ->
         status = 0 /\ exists s, Forall2 sg_row s obs /\ keep_spec_concl g nodesN edgesN s) /\
      (neg = false -> (exists v, In v nodesN /\ (g_n g <= v)%N) \/ ~ NoDup nodesN -> status = 2)) /\
@@ -441,6 +505,34 @@ Theorem C18_check_meaning_graphops : forall rest,
         (fst s = 8 /\ remove_case_ok (snd s)) \/ (fst s = 10 /\ sprint_case_ok (snd s)))) steps).
 Proof. exact case_meaning_graphops. Qed.
 Print Assumptions C18_check_meaning_graphops.
+
+(* (group hM) op 10 with the integer layout spelled out.  sprint_case_ok states the case through the record
+   parser parse_sprint; this theorem turns the complete parse into an equation for the line.  Attribute kinds
+   1 (int) and 4 (uint) decode to the same model value, so the layout is over RAW attributes (rattr: name,
+   kind 0..4, payload as written: <bytes> for kind 0 string / 2 literal, one integer for kind 1 int / 4 uint,
+   nothing for kind 3 unsupported) with attr_of decoding them into the model's attributes; enc_list enc xs =
+   count followed by the encodings.  NodeAttrs: one row per node; EdgeAttrs: per node, per edge. *)
+From MM Require Import Proofs.CheckC18DotLayout.
+Theorem C18_check_sprint_layout : forall rest, sprint_case_ok rest ->
+  exists g name haslabel labels hasn hase status obs (rn : list (list rattr)) (re : list (list (list rattr))),
+    rest = enc_graph g ++ enc_Zs name ++ haslabel :: enc_Zss labels ++ hasn :: enc_list enc_rattrs rn ++
+           hase :: enc_list (enc_list enc_rattrs) re ++ status :: enc_Zs obs ++ 1 :: enc_graph g /\
+    Forall (Forall rattr_ok) rn /\ Forall (Forall (Forall rattr_ok)) re /\
+    g_wf g /\
+    let d := sprint_opts name haslabel labels hasn (map (map attr_of) rn) hase (map (map (map attr_of)) re) in
+    let stmts := dot_stmts d (g_out g) (g_n g) in
+    somes (map stmt_node stmts) = nodes_upto (g_n g) /\
+    somes (map stmt_edge stmts) = flat_map (fun i => map (fun o => (i, o)) (g_out g i)) (nodes_upto (g_n g)) /\
+    ((status = 0 /\ (forall s a, In s stmts -> In a (stmt_attrs s) -> snd a <> AOther) /\
+      exists body, render_all stmts = Some body /\
+        obs = ZsN ([100; 105; 103; 114; 97; 112; 104; 32] ++ dot_string (d_name d) ++ [32; 123; 10] ++ body ++ [125; 10])%N)
+     \/ (status = 2 /\ obs = [] /\ exists s a, In s stmts /\ In a (stmt_attrs s) /\ snd a = AOther)).
+Proof. exact sprint_case_layout. Qed.
+Print Assumptions C18_check_sprint_layout.
+Example C18_ex_rattr :
+  enc_rattr (mkRA [108] 4 [] 7) = [1; 108; 4; 7] /\ attr_of (mkRA [108] 4 [] 7) = attr_of (mkRA [108] 1 [] 7) /\
+  enc_rattr (mkRA [108] 0 [65; 66] 0) = [1; 108; 0; 2; 65; 66] /\ p_attr [1; 108; 5; 7] = None.
+Proof. vm_compute. auto. Qed.
 
 (* Non-vacuity: real case lines (harness output on /repo, one per operation; op 2 written by hand: the graph
    0->1,2  1->2  2->0 from root 0 and from the missing root 3) are accepted with code 0; lines with one
